@@ -49,9 +49,9 @@ func regime(w *world, baseHeight int) string {
 	return "regime:v1-addblocks"
 }
 
-// catalogue: the fixed catalogue on the base network (v2 allowed at 6, required at 10), which is
-// the quick tier; the thorough tier repeats it on three more networks (other allow/require
-// heights, other victim heights) and adds seeded random draws.
+// catalogue: the fixed catalogue on the base network (v2 allowed at 6, required at 10) and on a
+// second one (3/5) is the quick tier; the thorough tier repeats it on two more networks (1/1 and
+// 8/20, other victim heights) and adds seeded random draws of the victim heights.
 func catalogue(r *vh.Run, rng *vh.RNG) []job {
 	w := getWorld(6, 10, 26)
 	wl := getWorld(6, 10, 232)
@@ -61,11 +61,12 @@ func catalogue(r *vh.Run, rng *vh.RNG) []job {
 	jobs = append(jobs, fakeStateJob(wl))
 	jobs = append(jobs, relayJobs(w)...)
 	jobs = append(jobs, mixedJobs(w, wl, rng)...)
+	// a second network in both tiers: v2 allowed at 3, required at 5
+	jobs = append(jobs, roundJobs(getWorld(3, 5, 20), 1, 7, "n3-5:", false)...)
 	if r != nil && !r.Quick() {
-		jobs = append(jobs, roundJobs(getWorld(3, 5, 20), 1, 7, "n3-5:", false)...)
 		jobs = append(jobs, roundJobs(getWorld(1, 1, 16), 0, 3, "n1-1:", false)...)
 		jobs = append(jobs, roundJobs(getWorld(8, 20, 40), 11, 25, "n8-20:", false)...)
-		for i := 0; i < 6; i++ {
+		for i := 0; i < 14; i++ {
 			hs := rng.Intn(9)
 			vs := 10 + rng.Intn(8)
 			jobs = append(jobs, roundJobs(w, hs, vs, fmt.Sprintf("r%d:", i), false)...)
